@@ -110,6 +110,12 @@ theorem send_data_step_order :
       ["next_sequence", "assert_valid_sequence", "pdu", "write"] := by
   decide
 
+/-- TIE TO THE SOURCE (regenerated on every run, Gen/Site.lean): the Sender loop `_dequeue_messages` in source order, projected on what the queue model (Model/SenderLoop.lean) assumes: inside the endless loop a message is taken from the broker, its encoding settled, the reference number drawn, its PDUs sent in a loop, and a failure handed to send_error inside the same iteration -/
+theorem sender_loop_step_order :
+    Gen.Site.dequeueLoop.filter (fun x => x ∈ ["while", "dequeue", "set_encoding_info", "next_sequence", "_send_data", "send_error", "end-while"]) =
+      ["while", "dequeue", "set_encoding_info", "next_sequence", "while", "end-while", "_send_data", "send_error", "end-while"] := by
+  decide
+
 end SmppVerif.Props.C06
 
 #print axioms SmppVerif.Props.C06.failure_classes
@@ -120,3 +126,4 @@ end SmppVerif.Props.C06
 #print axioms SmppVerif.Props.C06.queue_never_stops
 #print axioms SmppVerif.Props.C06.wire_in_queue_order
 #print axioms SmppVerif.Props.C06.send_data_step_order
+#print axioms SmppVerif.Props.C06.sender_loop_step_order
